@@ -268,7 +268,7 @@ func (e *unitEngine) returnUnit(f *ssa.Function, idx int) Unit {
 	}
 	e.retBusy[key] = true
 	u := UUnknown
-	eachInstr(f, func(in ssa.Instruction) {
+	eachInstrRaw(f, func(in ssa.Instruction) {
 		ret, ok := in.(*ssa.Return)
 		if !ok || in.Block() == f.Recover {
 			return
@@ -319,8 +319,8 @@ func (e *unitEngine) fieldUnit(tn, fld string) Unit {
 	}
 	e.fldBusy[key] = true
 	u := UUnknown
-	for _, f := range e.p.RepoFuncs {
-		eachInstr(f, func(in ssa.Instruction) {
+	for _, f := range e.p.AllFuncs {
+		eachInstrRaw(f, func(in ssa.Instruction) {
 			if st, ok := isFieldStore(in, tn, fld); ok {
 				u = joinPhi(u, e.unitOf(st.Val))
 			}
@@ -412,7 +412,7 @@ func (e *unitEngine) findingsIn(f *ssa.Function) []UnitFinding {
 		}
 		out = append(out, UnitFinding{f, in, sink, want, got, why})
 	}
-	eachInstr(f, func(in ssa.Instruction) {
+	eachInstrRaw(f, func(in ssa.Instruction) {
 		switch x := in.(type) {
 		case *ssa.Store:
 			if tn, fld, ok := fieldOf(x.Addr); ok {
@@ -516,7 +516,7 @@ func (e *unitEngine) elemUnit(v ssa.Value, depth int) Unit {
 		}
 		if callee := staticCallee(x); callee != nil && inRepo(callee) && len(callee.Blocks) > 0 {
 			u := UUnknown
-			eachInstr(callee, func(in ssa.Instruction) {
+			eachInstrRaw(callee, func(in ssa.Instruction) {
 				if ret, ok := in.(*ssa.Return); ok && len(ret.Results) > 0 && in.Block() != callee.Recover {
 					u = joinPhi(u, e.elemUnit(ret.Results[0], depth+1))
 				}
